@@ -461,6 +461,22 @@ def _evaluate(res, prop, config, req, out, hooks):
             V.extend(oracles.check_hooks(
                 config, "crashed", exp, events, tags, mw_tags, crashed=True))
             return
+        if req.nonfinite and _has_nonfinite(exp.data):
+            # A Float position holds NaN/Infinity.  py-gql treats values a
+            # scalar cannot represent as a developer error (RuntimeError, no
+            # response exists); what must never happen is a *response* that
+            # is not strict JSON.
+            if out.status == "raised" and isinstance(out.exc, RuntimeError):
+                res.count("probe:nonfinite_float_refused")
+            elif out.status == "ok":
+                V.extend(oracles.check_wellformed(
+                    "execution", config, out.result, req.text, None))
+            else:
+                V.append(Violation(
+                    ("C10",), "entrypoint_raised",
+                    ("execution", type(out.exc).__name__),
+                    "non-finite float: %r" % (out.exc,)))
+            return
         if out.status == "raised":
             V.append(Violation(
                 ("C04", "C08", "C10"), "unexpected_exception",
@@ -509,6 +525,15 @@ def _evaluate(res, prop, config, req, out, hooks):
                                      mw_tags))
 
 
+def _has_nonfinite(d):
+    if isinstance(d, dict):
+        return any(_has_nonfinite(v) for v in d.values())
+    if isinstance(d, list):
+        return any(_has_nonfinite(v) for v in d)
+    return isinstance(d, float) and (d != d or d in (float("inf"),
+                                                     float("-inf")))
+
+
 def _check_tracer(tracer, exp):
     out = []
     try:
@@ -529,3 +554,76 @@ def _check_tracer(tracer, exp):
         out.append(Violation(("C16",), "tracer_payload", ("null-duration",),
                              "some resolver entry has no duration"))
     return out
+
+
+REAL_VS_STUB = {
+    "real": [
+        "py_gql parser, validator, coercion, Executor, BlockingExecutor, "
+        "execute, process_graphql_query, runtime combinators (chain, "
+        "gather_futures, unwrap_future, map_value, gather_values, "
+        "unwrap_value), instrumentation, tracers -- imported from the "
+        "working tree",
+        "asyncio.Task / Future / gather / coroutines (stdlib)",
+        "concurrent.futures.Future state machine and callbacks (stdlib)",
+    ],
+    "stub": [
+        "asyncio event-loop core: SimLoop (virtual clock, no selector, "
+        "run_in_executor jobs become kernel items)",
+        "ThreadPoolExecutor behind ThreadPoolRuntime._inner: SimExecutor "
+        "(single-threaded completion-order simulation); thorough tier adds "
+        "ThreadSim (real threads, one runnable at a time)",
+        "wall clock in py_gql.tracers (virtual clock + skew table)",
+        "resolvers, type resolvers, middlewares, instrumentations "
+        "(synthetic, generated per case)",
+    ],
+}
+
+_RULES = {
+    "C08": "one case = generated schema + operation + world + fault "
+           "placement, executed under 5 executor/runtime configurations x "
+           "schedule policies (random, FIFO, LIFO, all-zero latency, "
+           "inline-completion heavy); every response compared with the "
+           "reference model; ",
+    "C09": "one case = generated mutation operation (1..5 root fields with "
+           "deferred nested selections, resolver errors at any position) "
+           "under 5 configurations x schedule policies; happens-before check "
+           "over the recorded event history; ",
+    "C04": "one case = a history of 2..6 requests (own operation, variables, "
+           "world, fault placement, configuration each) served by one "
+           "long-lived schema object, with introspection / printing / "
+           "validation / resolver re-registration in between; every response "
+           "compared with the stateless reference model; ",
+    "C10": "one case = 1..2 requests, a third of them hit by the fault model "
+           "of the property (truncated anywhere, one character flipped, wrong "
+           "variables, unknown operation name, syntax / validation errors), "
+           "resolver faults and non-finite floats; response-format "
+           "invariants on every response; ",
+    "C16": "one case = request with 1..3 stacked recording instrumentations "
+           "(+ApolloTracer on the virtual clock, with skew), 0..3 middlewares "
+           "(plain or coroutine), all outcome classes, 5 configurations x "
+           "schedule policies; pairing / exactly-once / nesting over the "
+           "recorded hook history; ",
+}
+
+
+def evidence_meta(prop):
+    return {
+        "rule": _RULES[prop] + (
+            "evaluations = configuration runs; distinct = distinct "
+            "(configuration, resolver completion order) signatures; "
+            "non-trivial = run had >= 2 concurrently pending kernel items "
+            "and >= 1 injected fault"),
+        "real_vs_stub": REAL_VS_STUB,
+        "assumptions": [
+            "operations are sampled by a generator; py-gql's own validator "
+            "decides validity (a rejected operation is a discard, capped at "
+            "5%)",
+            "the simulator never produces a schedule the substrate forbids: "
+            "asyncio's ready queue stays FIFO, a pool task never completes "
+            "before it was submitted, callbacks run on the completing or "
+            "attaching thread",
+            "L1 explores completion orders at callback granularity; "
+            "line-level interleavings of two callbacks are explored by the "
+            "thorough tier's ThreadSim only",
+        ],
+    }
